@@ -88,7 +88,7 @@ def random_scenario(rng, kind, policy=None, bind="", mapping_p=0.25, mon_p=0.4, 
     if rng.random() < mon_p:
         sc["mon"] = {"incl": rng.choice([0, 1]), "gaps": [step * K * rng.choice([0, 1, 1, 2, 3]) for _ in range(rng.randint(1, 6))]}
     if rng.random() < 0.08:
-        sc["noout"] = 1                     # the scheduler is the last element: no next hop
+        sc["noout"] = rng.choice([1, 2])    # the scheduler is the last element: no next hop (out = None / never assigned)
         sc["arr"] = [a for a in sc["arr"] if "after" not in a]
         sc.setdefault("mon", {"incl": rng.choice([0, 1]), "gaps": [step * K * rng.choice([1, 2, 3, 5]) for _ in range(rng.randint(3, 8))]})
     if rng.random() < 0.3:
